@@ -11,6 +11,8 @@ pub(super) fn detect_cycles(ast: &Ast, diagnostics: &mut Diagnostics) {
         type_being_checked: None,
         dependency_stack: Vec::new(),
         reported_cycles: HashSet::new(),
+        dead_ends: HashSet::new(),
+        inconclusive_checks: 0,
         diagnostics,
     };
 
@@ -25,6 +27,7 @@ pub(super) fn detect_cycles(ast: &Ast, diagnostics: &mut Diagnostics) {
 
         debug_assert!(cycle_detector.dependency_stack.is_empty());
         cycle_detector.type_being_checked = Some((candidate.module_scoped_identifier(), candidate));
+        cycle_detector.dead_ends.clear(); // Dead ends are relative to the type being checked.
         candidate.check_for_cycles(&mut cycle_detector)
     }
 }
@@ -108,6 +111,16 @@ struct CycleDetector<'a> {
     /// Stores all the cycles we've reported so far, so we can avoid reporting duplicates.
     reported_cycles: HashSet<BTreeSet<String>>,
 
+    /// Stores the type-ids of types that we've completely checked without finding any way back to the type currently
+    /// being checked. There's no point in checking them again when we reach them through another path; without this,
+    /// checking a type takes time proportional to the number of paths through its dependencies (which grows
+    /// exponentially for types that share dependencies), instead of the number of dependencies.
+    dead_ends: HashSet<String>,
+
+    /// Counts how many times (for the type currently being checked) a check ended without a definite 'no':
+    /// either because it found a cycle, or because it was cut short by a type that's already on the dependency stack.
+    inconclusive_checks: usize,
+
     /// Reference to a diagnostics struct for reporting errors.
     diagnostics: &'a mut Diagnostics,
 }
@@ -150,6 +163,7 @@ impl<'a> CycleDetector<'a> {
             self.dependency_stack.push((candidate_type_string, origin));
             self.report_cycle_error();
             self.dependency_stack.pop();
+            self.inconclusive_checks += 1;
             return;
         }
 
@@ -158,15 +172,28 @@ impl<'a> CycleDetector<'a> {
         // candidate isn't the cause of the cycle, just a link or offshoot of it.
         for (seen_type_id, _) in &self.dependency_stack {
             if seen_type_id == &candidate_type_string {
+                self.inconclusive_checks += 1;
                 return;
             }
         }
 
+        // If we already know that the type we're checking can't be reached through the candidate, skip it.
+        if self.dead_ends.contains(&candidate_type_string) {
+            return;
+        }
+
         // If we haven't detected any cycles yet, it's safe to continue recursing.
         // Push the current field and its type onto the stack, then check the candidate's fields.
+        let inconclusive_checks_before = self.inconclusive_checks;
         self.dependency_stack.push((candidate_type_string, origin));
         candidate.check_for_cycles(self);
-        self.dependency_stack.pop();
+        let (candidate_type_string, _) = self.dependency_stack.pop().unwrap();
+
+        // If everything reachable through the candidate was checked (nothing was cut short), and no cycle was found,
+        // then no path through the candidate leads back to the type we're checking, whatever is on the stack.
+        if self.inconclusive_checks == inconclusive_checks_before {
+            self.dead_ends.insert(candidate_type_string);
+        }
     }
 
     fn report_cycle_error(&mut self) {
